@@ -64,7 +64,11 @@ class SimDevice:
         mask: int = 0x07B0,
         serial_fault: str | None = None,  # None | "answers-any" (answers every serial read with its own serial) | "echo" (claims the asked serial)
         name: str | None = None,
+        latency: str | None = None,  # None: the bus default | "con": replies handled in the loop iteration of the L_Data.con | "iter": a few iterations later, same virtual instant | "20ms"
     ) -> None:
+        if latency not in (None, "con", "iter", "20ms"):
+            raise ValueError(f"unknown latency {latency!r}")
+        self.latency = latency
         self.address = IndividualAddress(address)
         self.initial_address = IndividualAddress(address)
         self.serial = bytes(serial)
@@ -97,6 +101,7 @@ class SimDevice:
             "serial": self.serial.hex(),
             "prog": self.prog,
             "conn": self.conn,
+            "latency": self.latency,
             "restarts": self.restarts,
             "address_writes": self.address_writes,
             "level": self.level,
@@ -220,15 +225,31 @@ class SimBus:
         self.log.append({"t": round(self.loop.time(), 6), "tick": self.loop.tick, "dir": "event", "event": "address-change", "device": dev.name, "old": str(old), "new": str(dev.address), "why": why})
 
     # -- bus -> client -------------------------------------------------------
+    ITERATIONS_LATER = 4  # "iter" latency: after the task that sent the frame has resumed from its L_Data.con wait
+
     def _emit(self, dev: SimDevice, telegram: Telegram) -> None:
         src = str(dev.address)
-        when = self.delay + self._k * self.step
+        k = self._k
         self._k += 1
         self._pending += 1
+        lat = getattr(dev, "latency", None)
+        if lat == "con":
+            self.loop.call_soon(self._deliver, dev.name, src, telegram)
+            return
+        if lat == "iter":
+            self._after_iterations(self.ITERATIONS_LATER, dev.name, src, telegram)
+            return
+        when = (0.02 + k * 0.002) if lat == "20ms" else (self.delay + k * self.step)
         if when > 0:
             self.loop.call_later(when, self._deliver, dev.name, src, telegram)
         else:
             self.loop.call_soon(self._deliver, dev.name, src, telegram)
+
+    def _after_iterations(self, n: int, name: str, src: str, telegram: Telegram) -> None:
+        if n <= 0:
+            self._deliver(name, src, telegram)
+        else:
+            self.loop.call_soon(self._after_iterations, n - 1, name, src, telegram)
 
     def _deliver(self, name: str, src: str, telegram: Telegram) -> None:
         self._pending -= 1
